@@ -77,7 +77,8 @@ Print Assumptions equals_depends_only_on_windows.
 (* After a successful TryToCopyFrom the destination is Ok, has the source's size and Equals the OLD
    source — also for overlapping windows (memmove semantics); the source re-read from the new memory
    Equals it too when its window was not overwritten.  Hypotheses forced by the proof: the class
-   wf_stable (window growth), equal parameters, and that the source is Ok on its own first n bytes. *)
+   wf_stable (window growth; nested structures may be parameterised), equal parameters, and that the
+   source is Ok on its own first n bytes. *)
 Theorem copy_then_equals : forall m, wf_stable m = true ->
   forall d ps pinit fuel mem o1 l1 o2 l2 n,
     In d m ->
@@ -99,6 +100,18 @@ Theorem copy_then_equals : forall m, wf_stable m = true ->
        (float_free m = true -> equals_struct m fuel d (fr_sub dst') (fr_sub src') = true)).
 Proof. exact Local.copy_then_equals. Qed.
 Print Assumptions copy_then_equals.
+
+(* an instance with a parameterised nested structure (Outer { n; Par(n) p; tail } of Stable.m_par) *)
+Example copy_then_equals_param_instance :
+  wf_stable m_par = true /\
+  exists mem',
+    view_try_copy copy_mem_par (Some (3, 4)) (eval_struct m_par copy_mem_par 8 d_par [] true (SB (Some (0, 3)))) = Some mem' /\
+    length mem' = length copy_mem_par /\
+    let dst' := eval_struct m_par mem' 8 d_par [] true (SB (Some (3, 4))) in
+    fr_sok dst' = true /\ fr_ssize dst' = Some 3 /\
+    equals_struct m_par 8 d_par (fr_sub dst')
+      (fr_sub (eval_struct m_par copy_mem_par 8 d_par [] true (SB (Some (0, 3))))) = true.
+Proof. exact (conj Stable.wf_stable_example_param Local.copy_then_equals_param_instance). Qed.
 
 (* The hypothesis float_free (no Float field) on the two Equals conclusions is forced: Float fields
    compare with operator== of the values read, and a NaN does not equal itself.  A structure of the
